@@ -16,6 +16,8 @@ import CwMt.Model.Engine
 -/
 namespace CwMt.Json
 
+/- the fixed pieces of text are written as character lists (string literals do not reduce in the kernel) -/
+
 def hexUpper (n : Nat) : Char := if n ≤ 9 then Char.ofNat (0x30 + n) else Char.ofNat (0x41 + (n - 10))
 
 /-- `serialize_str`, one character -/
@@ -39,7 +41,7 @@ def str (s : List Char) : List Char := '"' :: (escape s ++ ['"'])
 def nat (n : Nat) : List Char := Nat.toDigits 10 n
 
 def coin (c : Coin) : List Char :=
-  "{\"denom\":".toList ++ str c.denom.toList ++ ",\"amount\":\"".toList ++ nat c.amount ++ "\"}".toList
+  ['{', '\"', 'd', 'e', 'n', 'o', 'm', '\"', ':'] ++ str c.denom.toList ++ [',', '\"', 'a', 'm', 'o', 'u', 'n', 't', '\"', ':', '\"'] ++ nat c.amount ++ ['\"', '}']
 
 /-- elements separated by commas -/
 def seq {α : Type} (f : α → List Char) : List α → List Char
@@ -50,13 +52,13 @@ def seq {α : Type} (f : α → List Char) : List α → List Char
 def balances (cs : Coins) : List Char := '[' :: (seq coin cs ++ [']'])
 
 def optStr : Option String → List Char
-  | none => "null".toList
+  | none => ['n', 'u', 'l', 'l']
   | some s => str s.toList
 
 def contract (cd : ContractData) : List Char :=
-  "{\"code_id\":".toList ++ nat cd.codeId ++ ",\"creator\":".toList ++ str cd.creator.toList ++
-  ",\"admin\":".toList ++ optStr cd.admin ++ ",\"label\":".toList ++ str cd.label.toList ++
-  ",\"created\":".toList ++ nat cd.created ++ ['}']
+  ['{', '\"', 'c', 'o', 'd', 'e', '_', 'i', 'd', '\"', ':'] ++ nat cd.codeId ++ [',', '\"', 'c', 'r', 'e', 'a', 't', 'o', 'r', '\"', ':'] ++ str cd.creator.toList ++
+  [',', '\"', 'a', 'd', 'm', 'i', 'n', '\"', ':'] ++ optStr cd.admin ++ [',', '\"', 'l', 'a', 'b', 'e', 'l', '\"', ':'] ++ str cd.label.toList ++
+  [',', '\"', 'c', 'r', 'e', 'a', 't', 'e', 'd', '\"', ':'] ++ nat cd.created ++ ['}']
 
 def toBytes (cs : List Char) : List UInt8 := (String.ofList cs).toUTF8.toList
 
@@ -104,11 +106,11 @@ def expect : List Char → List Char → Option (List Char)
   | p :: ps, c :: cs => if p = c then expect ps cs else none
 
 def parseCoin (cs : List Char) : Option (Coin × List Char) := do
-  let r ← expect "{\"denom\":".toList cs
+  let r ← expect ['{', '\"', 'd', 'e', 'n', 'o', 'm', '\"', ':'] cs
   let (d, r) ← parseStr r
-  let r ← expect ",\"amount\":\"".toList r
+  let r ← expect [',', '\"', 'a', 'm', 'o', 'u', 'n', 't', '\"', ':', '\"'] r
   let (a, r) ← parseNat r
-  let r ← expect "\"}".toList r
+  let r ← expect ['\"', '}'] r
   pure (⟨String.ofList d, a⟩, r)
 
 /-- the elements after the first one, up to and including `]` (fuel: the input length suffices) -/
@@ -134,15 +136,15 @@ def parseOptStr : List Char → Option (Option String × List Char)
   | cs => (parseStr cs).map fun p => (some (String.ofList p.1), p.2)
 
 def parseContract (cs : List Char) : Option (ContractData × List Char) := do
-  let r ← expect "{\"code_id\":".toList cs
+  let r ← expect ['{', '\"', 'c', 'o', 'd', 'e', '_', 'i', 'd', '\"', ':'] cs
   let (codeId, r) ← parseNat r
-  let r ← expect ",\"creator\":".toList r
+  let r ← expect [',', '\"', 'c', 'r', 'e', 'a', 't', 'o', 'r', '\"', ':'] r
   let (creator, r) ← parseStr r
-  let r ← expect ",\"admin\":".toList r
+  let r ← expect [',', '\"', 'a', 'd', 'm', 'i', 'n', '\"', ':'] r
   let (admin, r) ← parseOptStr r
-  let r ← expect ",\"label\":".toList r
+  let r ← expect [',', '\"', 'l', 'a', 'b', 'e', 'l', '\"', ':'] r
   let (label, r) ← parseStr r
-  let r ← expect ",\"created\":".toList r
+  let r ← expect [',', '\"', 'c', 'r', 'e', 'a', 't', 'e', 'd', '\"', ':'] r
   let (created, r) ← parseNat r
   let r ← expect ['}'] r
   pure (⟨codeId, String.ofList creator, admin, String.ofList label, created⟩, r)
